@@ -5,6 +5,7 @@
   model) gives for the same query.
 -/
 import UtreexoVerif.Driver.State
+import UtreexoVerif.Model.Verifiers
 
 namespace UtreexoVerif.Driver
 open UtreexoVerif Model Spec
@@ -47,18 +48,10 @@ def modelVerify (impl : String) (n : U64) (roots : List H256) (hs : List H256) (
     match verify n roots hs ts ps with
     | .ok idx => "ok " ++ nats idx
     | o => o.tag
-  else if impl == "pollard" then
-    if hs.isEmpty then "ok"
-    else if hs.length ≠ ts.length then "err"
-    else match calculateHashes n (some hs) ts ps with
-      | .ok r => if r.roots.isEmpty then "err" else (matchRoots n roots r.roots r.rootRows none).tag
-      | o => o.tag
-  else
-    let tr := TreeRows n
-    let ts' := match totalRows with
-      | some r => if tr.toNat ≠ r then translatePositions ts (BitVec.ofNat 8 r) tr else ts
-      | none => ts
-    (verify n roots hs ts' ps).tag
+  else if impl == "pollard" then (pollardVerify n roots hs ts ps).tag
+  else match totalRows with
+    | some r => (mapVerify n (BitVec.ofNat 8 r) roots hs ts ps).tag
+    | none => (verify n roots hs ts ps).tag
 
 def handleObs (line : String) (toks : List String) : M Unit := do
   let I ← getIndex
@@ -152,13 +145,13 @@ def handleStump (line : String) (toks : List String) : M Unit := do
     match parseHashes r, parseU64 n, parseHashes d, parseHashes a, parseU64s t, parseHashes p with
     | some roots, some nn, some dels, some adds, some ts, some ps =>
       let st : Stump H256 := { roots := roots, numLeaves := nn }
-      let exp := match st.update nonZeroPlaceholder dels adds ts ps with
-        | .ok (s2, ud) =>
+      let exp := match st.updateSt nonZeroPlaceholder dels adds ts ps with
+        | (s2, .ok ud) =>
           s!"ok {hxs s2.roots} {u s2.numLeaves} {u64s ud.toDestroy} {u ud.prevNumLeaves} " ++
           s!"{u64s (ud.newDel.map (·.1))} {hxs (ud.newDel.map (·.2))} " ++
           s!"{u64s (ud.newAdd.map (·.1))} {hxs (ud.newAdd.map (·.2))}"
-        | .err => s!"err {hxs roots} {u nn}"   -- a rejected update leaves the stump unchanged
-        | o => o.tag
+        | (s2, .err) => s!"err {hxs s2.roots} {u s2.numLeaves}"   -- the stump left behind by a rejected update
+        | (_, o) => o.tag
       count "stumpupdate" line (dels.length + adds.length > 0)
       expectEq "stumpupdate" exp (" ".intercalate res)
     | _, _, _, _, _, _ => parseError line
